@@ -49,6 +49,12 @@ func (in *ctlInstance) doCtl(ci int, a Action) (out string) {
 		if err != nil {
 			return "-ERR(" + err.Error() + ")"
 		}
+		if unorderedReply[strings.ToUpper(a.A[0])] {
+			// element order comes from Go map iteration: compare as a multiset
+			if v, e := parseExact(b); e == nil {
+				return v.Canon(true)
+			}
+		}
 		return briefRaw(b)
 	case "emb":
 		b, err := in.db.VerifHandleEmbedded(a.A)
@@ -82,7 +88,7 @@ func (in *ctlInstance) doCtl(ci int, a Action) (out string) {
 }
 
 var unorderedReply = map[string]bool{"SMEMBERS": true, "SUNION": true, "SINTER": true, "SDIFF": true, "HKEYS": true, "HVALS": true,
-	"SPOP": true, "SRANDMEMBER": true}
+	"HGETALL": true, "SPOP": true, "SRANDMEMBER": true, "HRANDFIELD": true, "ZRANDMEMBER": true, "RANDOMKEY": true, "PUBSUB": true}
 
 func briefRaw(b []byte) string {
 	if len(b) == 0 {
